@@ -177,11 +177,15 @@ def analyse(mod, run, label):
                 if fld is None or "." in fld or not EXTREME_FIELDS.match(fld): continue
                 v = strip_casts(fn, i.ops[0])
                 cands = []
-                if v["k"] == "arg" and fn.internal:
-                    # a file-local "fill the metadata" helper: the value comes from its callers
-                    for g2 in mod.defined():
-                        for c2 in g2.calls(fn.name): cands.append((g2, c2.ops[v["v"]]))
-                else: cands.append((fn, v))
+                def origins(gfn_, val, d=0):
+                    # a file-local "fill the metadata" helper (possibly calling another one): the value comes from its callers
+                    val = strip_casts(gfn_, val)
+                    if val["k"] == "arg" and gfn_.internal and d < 3:
+                        for g2 in mod.defined():
+                            for c2 in g2.calls(gfn_.name):
+                                if val["v"] < c2["nargs"]: origins(g2, c2.ops[val["v"]], d + 1)
+                    else: cands.append((gfn_, val))
+                origins(fn, v)
                 for (gfn, gv) in cands:
                     sc = scan_of(gfn, gv)
                     if sc is None: continue
@@ -216,6 +220,19 @@ def analyse(mod, run, label):
                         for c, via in cands:
                             if via not in reach: continue                      # that return is not reached after this store
                             same = (fi.lin(c) == lv) or same_pure_call(fn, fi, w, strip_casts(fn, c), strip_casts(fn, v))
+                            if not same:
+                                # the returned cursor may be a merge of the paths (`ptr` after an if/else that each fill the metadata): on the
+                                # way from this store only the incoming values that lie behind the store count
+                                here = reach | {i.block.id}
+                                def behind(l_, d_=0):
+                                    for a_ in list(l_.atoms()):
+                                        if not (isinstance(a_, tuple) and a_[0] == "pv") or d_ > 4: continue
+                                        ph_ = fn.imap.get(a_[1])
+                                        if ph_ is None or ph_.op != "phi" or ph_.block.id in fn.loops() or ph_.block.id not in here: continue
+                                        alts_ = [behind(fi.ptr(x_["v"])[1], d_ + 1) for x_ in ph_["incoming"] if x_["b"] in here]
+                                        if alts_ and all(al == alts_[0] for al in alts_): l_ = l_.subst(a_, alts_[0])
+                                    return l_
+                                same = behind(fi.lin(c)) == lv
                             if not same and c["k"] == "inst" and fn.imap[c["v"]].op == "load":
                                 same = field_of(eng, fi, fn, fn.imap[c["v"]].ops[0], k, t) == fld
                             good = same if good is None else (good and same)
@@ -342,12 +359,9 @@ def run(tier):
         from .. import sizeterms as ST
         n6 = 0
         for pred, enc in M6_PAIRS:
-            pt, _ = ST.size_terms(need_fn(mod, pred), mod, "size"); et, _ = ST.size_terms(need_fn(mod, enc), mod, "cursor")
-            if pt and not et:
-                m2, ef2 = with_helpers_inlined(mod, need_fn(mod, enc), cfg)          # encoder split into cursor-returning helpers
-                if m2 is not None: et, _ = ST.size_terms(ef2, m2, "cursor")
+            pt, et, unc, unexp, _note = ST.paired_terms(mod, need_fn(mod, pred), need_fn(mod, enc), cfg, True)
             if not pt or not et: raise AnalysisBroken("M6: no size terms for %s / %s" % (pred, enc))
-            unc, unexp = ST.match_terms(pt, et, True); n6 += 1
+            n6 += 1
             pf = mod.fn(pred)
             run.check(not unc and not unexp, "M6-reported-size-terms-agree", {"analysis": pred, "encoder": enc, "terms": len(et)},
                       Finding("M6-reported-size-terms-differ", pred, enc, "terms", "the size %s reports is not built from the same length terms as %s's output (%d encoder term(s) unaccounted, %d extra)" % (pred, enc, len(unc), len(unexp)),
@@ -389,11 +403,35 @@ def run(tier):
                 u.site = st.block
                 got = u.exact(stv)
                 if got is None: run.defer_broken("M8 %s: the value stored into blockCount at %s is not an exact expression of count" % (enc, loc(st))); continue
+                # the store may sit on one side of a test of the remainder (`if (remaining > 0) ... else ...`): it only speaks for the counts
+                # that reach it
+                conds = []
+                f.dom()
+                for dblk in f.dom_chain(st.block.id):
+                    bb_ = f.bmap[dblk]
+                    if len(bb_.preds) != 1: continue
+                    tt = bb_.preds[0].term
+                    if tt.op != "br" or len(tt.ops) != 3 or tt.ops[0]["k"] != "inst" or tt.ops[1]["v"] == tt.ops[2]["v"]: continue
+                    gi = f.imap[tt.ops[0]["v"]]
+                    if gi.op != "icmp" or gi.ops[1]["k"] != "int" or int(gi.ops[1]["v"]) != 0 or gi["pred"] not in ("ugt", "ne", "eq"): continue
+                    u.site = bb_.preds[0]
+                    ge = u.exact(gi.ops[0])
+                    if ge is None: continue
+                    positive = (tt.ops[2]["v"] == dblk) == (gi["pred"] != "eq")
+                    conds.append((ge, positive))
+                u.site = st.block
+                def reaches(r, qpos):
+                    for ge, positive in conds:
+                        try: gv = residue_eval(ge, ca, 128, r, qpos)
+                        except Unbounded: continue
+                        if gv.is_const() and (gv.c() > 0) != positive: return False
+                    return True
                 bad = None
                 try:
                     for r in range(128):
                         for qpos in (False, True):
                             if not qpos and r == 0: continue
+                            if not reaches(r, qpos): continue
                             a = residue_eval(got, ca, 128, r, qpos); b = residue_eval(want, ca, 128, r, qpos)
                             if a != b: bad = (r, qpos, a, b); break
                         if bad: break
